@@ -51,13 +51,40 @@ theorem QT.trans {l l' l'' : List Tr} (h : QT l l') (h' : QT l' l'') : QT l l'' 
   · exact hb t ht
   · exact ha t ht
 
-@[simp] theorem qt_cons {l l' : List Tr} {t : Tr} (ht : isMark t = false) (h : QT l l') : QT l (t :: l') := by
+theorem qt_cons {l l' : List Tr} {t : Tr} (ht : isMark t = false) (h : QT l l') : QT l (t :: l') := by
   obtain ⟨a, rfl, ha⟩ := h
   refine ⟨t :: a, rfl, ?_⟩
   intro x hx
   rcases List.mem_cons.mp hx with rfl | hx
   · exact ht
   · exact ha x hx
+
+/-- `qt_cons` in the form `simp` can use as a conditional rewrite rule -/
+@[simp] theorem qt_cons' {l l' : List Tr} {t : Tr} (ht : ¬ isMark t = true) (h : QT l l') : QT l (t :: l') :=
+  qt_cons (by simpa using ht) h
+
+@[simp] theorem isMark_enq (a b) : isMark (.enq a b) = false := rfl
+@[simp] theorem isMark_dropped (a) : isMark (.dropped a) = false := rfl
+@[simp] theorem isMark_take (a b) : isMark (.take a b) = false := rfl
+@[simp] theorem isMark_putBack (a b) : isMark (.putBack a b) = false := rfl
+@[simp] theorem isMark_call (a b c) : isMark (.call a b c) = false := rfl
+@[simp] theorem isMark_dispatched (a b) : isMark (.dispatched a b) = false := rfl
+@[simp] theorem isMark_exit : isMark .exit = false := rfl
+@[simp] theorem isMark_forceQuit : isMark .forceQuit = false := rfl
+@[simp] theorem isMark_kill : isMark .kill = true := rfl
+@[simp] theorem isMark_openLevel (a b) : isMark (.openLevel a b) = false := rfl
+@[simp] theorem isMark_closeLevel (a) : isMark (.closeLevel a) = false := rfl
+@[simp] theorem isMark_loopReturn (a) : isMark (.loopReturn a) = false := rfl
+@[simp] theorem isMark_closeReq (a b) : isMark (.closeReq a b) = false := rfl
+@[simp] theorem isMark_waitBegin (a b) : isMark (.waitBegin a b) = false := rfl
+@[simp] theorem isMark_waitEnd (a b c) : isMark (.waitEnd a b c) = false := rfl
+@[simp] theorem isMark_procBegin : isMark .procBegin = false := rfl
+@[simp] theorem isMark_procEnd : isMark .procEnd = false := rfl
+@[simp] theorem isMark_stackOp (a b) : isMark (.stackOp a b) = false := rfl
+@[simp] theorem isMark_show (a) : isMark (.show a) = true := rfl
+@[simp] theorem isMark_refresh (a) : isMark (.refresh a) = false := rfl
+@[simp] theorem isMark_modalBegin (a) : isMark (.modalBegin a) = false := rfl
+@[simp] theorem isMark_modalEnd (a) : isMark (.modalEnd a) = false := rfl
 
 theorem QT.mark_mem {l l' : List Tr} (h : QT l l') (t : Tr) (ht : isMark t = true) : t ∈ l' ↔ t ∈ l := by
   obtain ⟨a, rfl, ha⟩ := h
@@ -285,10 +312,10 @@ theorem startRequest_frame (c : Cfg) (ih : Nat) (r : Src) (t : Str) :
 
 /-! ### folds -/
 
-theorem foldl_frame {α} (f : Cfg → α → Cfg) (c0 : Cfg)
+theorem foldl_frame {α} (f : Cfg → α → Cfg) (o : List Str) (k : List Instr) (t : List Tr)
     (hf : ∀ c a, (f c a).A.out = c.A.out ∧ (f c a).code = c.code ∧ QT c.tr (f c a).tr) :
-    ∀ (l : List α) (c : Cfg), c.A.out = c0.A.out → c.code = c0.code → QT c0.tr c.tr →
-      (l.foldl f c).A.out = c0.A.out ∧ (l.foldl f c).code = c0.code ∧ QT c0.tr (l.foldl f c).tr := by
+    ∀ (l : List α) (c : Cfg), c.A.out = o → c.code = k → QT t c.tr →
+      (l.foldl f c).A.out = o ∧ (l.foldl f c).code = k ∧ QT t (l.foldl f c).tr := by
   intro l
   induction l with
   | nil => intro c h1 h2 h3; exact ⟨h1, h2, h3⟩
